@@ -1,6 +1,7 @@
 package num
 
 import (
+	"fmt"
 	"math"
 
 	"github.com/invopop/jsonschema"
@@ -61,6 +62,14 @@ func PercentageFromString(str string) (Percentage, error) {
 	}
 	if rescale {
 		return PercentageFromAmount(p.amount), nil
+	}
+	// a factor with fewer than two decimals is written as a percentage by
+	// multiplying its digits: refuse what would not fit afterwards
+	if p.amount.exp < 2 {
+		m := intPow(10, 2-p.amount.exp)
+		if p.amount.value > math.MaxInt64/m || p.amount.value < math.MinInt64/m {
+			return Percentage{}, fmt.Errorf("invalid percentage '%v', out of range", str)
+		}
 	}
 
 	return p, nil
